@@ -33,7 +33,10 @@ fn cap(c: &Capability) -> V {
         Capability::AG_UNCERTAIN2 => 6,
         Capability::AG_UNCERTAIN3 => 7,
         #[allow(unreachable_patterns)]
-        _ => 0xffff,
+        _ => {
+            crate::common::note_unknown_variant();
+            0xffff
+        }
     })
 }
 
@@ -49,7 +52,10 @@ fn dr(d: &DownlinkRequest) -> V {
         DownlinkRequest::CommBBroadcastMsg2 => 5,
         DownlinkRequest::Unknown(v) => 0x100 + u64::from(*v),
         #[allow(unreachable_patterns)]
-        _ => 0xffff,
+        _ => {
+            crate::common::note_unknown_variant();
+            0xffff
+        }
     })
 }
 
@@ -62,7 +68,10 @@ fn sign(s: &Sign) -> V {
         Sign::Positive => 0,
         Sign::Negative => 1,
         #[allow(unreachable_patterns)]
-        _ => 0xffff,
+        _ => {
+            crate::common::note_unknown_variant();
+            0xffff
+        }
     })
 }
 
@@ -131,7 +140,10 @@ fn me(o: &mut Obs, m: &ME) {
                     adsb_deku::adsb::TypeCoding::B => "B",
                     adsb_deku::adsb::TypeCoding::A => "A",
                     #[allow(unreachable_patterns)]
-                    _ => "?",
+                    _ => {
+                        crate::common::note_unknown_variant();
+                        "?"
+                    }
                 }
                 .to_string()),
             ));
@@ -148,7 +160,10 @@ fn me(o: &mut Obs, m: &ME) {
                     StatusForGroundTrack::Invalid => 0,
                     StatusForGroundTrack::Valid => 1,
                     #[allow(unreachable_patterns)]
-                    _ => 0xffff,
+                    _ => {
+                        crate::common::note_unknown_variant();
+                        0xffff
+                    }
                 }),
             ));
             o.push(("me.surf.trk", V::U(u64::from(s.trk))));
@@ -170,7 +185,10 @@ fn me(o: &mut Obs, m: &ME) {
                     SurveillanceStatus::TemporaryAlert => 2,
                     SurveillanceStatus::SPICondition => 3,
                     #[allow(unreachable_patterns)]
-                    _ => 0xffff,
+                    _ => {
+                        crate::common::note_unknown_variant();
+                        0xffff
+                    }
                 }),
             ));
             o.push(("me.pos.saf", V::U(u64::from(a.saf_or_imf))));
@@ -208,7 +226,10 @@ fn me(o: &mut Obs, m: &ME) {
                     o.push(("me.vel.reserved22", V::U(u64::from(*r))));
                 }
                 #[allow(unreachable_patterns)]
-                _ => o.push(("variant-unknown-to-the-reference", V::U(1))),
+                _ => {
+                    crate::common::note_unknown_variant();
+                    o.push(("variant-unknown-to-the-reference", V::U(1)))
+                }
             }
             o.push((
                 "me.vel.vrate_src",
@@ -216,7 +237,10 @@ fn me(o: &mut Obs, m: &ME) {
                     VerticalRateSource::BarometricPressureAltitude => 0,
                     VerticalRateSource::GeometricAltitude => 1,
                     #[allow(unreachable_patterns)]
-                    _ => 0xffff,
+                    _ => {
+                        crate::common::note_unknown_variant();
+                        0xffff
+                    }
                 }),
             ));
             o.push(("me.vel.vrate_sign", sign(&v.vrate_sign)));
@@ -235,7 +259,10 @@ fn me(o: &mut Obs, m: &ME) {
                     // the enum folds 3..=7: any of them is "reserved"
                     AircraftStatusType::Reserved => V::S("reserved".into()),
                     #[allow(unreachable_patterns)]
-                    _ => V::U(0xffff),
+                    _ => {
+                        crate::common::note_unknown_variant();
+                        V::U(0xffff)
+                    }
                 },
             ));
             o.push((
@@ -250,7 +277,10 @@ fn me(o: &mut Obs, m: &ME) {
                     EmergencyState::DownedAircraft => 6,
                     EmergencyState::Reserved2 => 7,
                     #[allow(unreachable_patterns)]
-                    _ => 0xffff,
+                    _ => {
+                        crate::common::note_unknown_variant();
+                        0xffff
+                    }
                 }),
             ));
             o.push(("me.status.squawk", V::U(u64::from(s.squawk))));
@@ -284,7 +314,10 @@ fn me(o: &mut Obs, m: &ME) {
                     ADSBVersion::DOC9871AppendixC => 2,
                     // a variant the pinned enum does not have (an added catch-all) is projected apart from the named ones
                     #[allow(unreachable_patterns)]
-                    _ => 99,
+                    _ => {
+                        crate::common::note_unknown_variant();
+                        99
+                    }
                 })
             };
             match os {
@@ -330,11 +363,17 @@ fn me(o: &mut Obs, m: &ME) {
                     o.push(("me.ops.st", V::S("reserved".into())));
                 }
                 #[allow(unreachable_patterns)]
-                _ => o.push(("variant-unknown-to-the-reference", V::U(1))),
+                _ => {
+                    crate::common::note_unknown_variant();
+                    o.push(("variant-unknown-to-the-reference", V::U(1)))
+                }
             }
         }
         #[allow(unreachable_patterns)]
-        _ => o.push(("variant-unknown-to-the-reference", V::U(1))),
+        _ => {
+            crate::common::note_unknown_variant();
+            o.push(("variant-unknown-to-the-reference", V::U(1)))
+        }
     }
 }
 
@@ -381,7 +420,10 @@ fn bds(o: &mut Obs, b_: &BDS) {
             o.push(("mb.unknown_id", V::U(u64::from(*id))));
         }
         #[allow(unreachable_patterns)]
-        _ => o.push(("variant-unknown-to-the-reference", V::U(1))),
+        _ => {
+            crate::common::note_unknown_variant();
+            o.push(("variant-unknown-to-the-reference", V::U(1)))
+        }
     }
 }
 
@@ -400,7 +442,10 @@ pub fn df_code(frame: &Frame) -> u8 {
         DF::CommBIdentityReply { .. } => 21,
         DF::ModeSExtendedSquitter { df, .. } => *df,
         #[allow(unreachable_patterns)]
-        _ => 0xff,
+        _ => {
+            crate::common::note_unknown_variant();
+            0xff
+        }
     }
 }
 
@@ -488,7 +533,10 @@ pub fn project(frame: &Frame) -> Obs {
             o.push(("pi", icao(parity)));
         }
         #[allow(unreachable_patterns)]
-        _ => o.push(("variant-unknown-to-the-reference", V::U(1))),
+        _ => {
+            crate::common::note_unknown_variant();
+            o.push(("variant-unknown-to-the-reference", V::U(1)))
+        }
     }
     o
 }
